@@ -28,10 +28,10 @@ def shards(tier):
 
 def run(shard, tier, seed):
     res = Result()
-    n = 25 if tier == "quick" else 400
+    n = 60 if tier == "quick" else 600
     nb = (6, 14) if tier == "quick" else (6, 30)
     return chainexec.drive(res, env.subseed(seed, ID, shard["i"]), n, tier, FOCUS, CATS, ID, n_blocks=nb, p_mut=0.45,
-                           p_copy=0.1)
+                           p_copy=0.1, p_restart=0.08, p_fork=0.5)
 
 
 def replay(case):
